@@ -236,6 +236,10 @@ End Theorems.
 
 Definition derive_keyset_id (keyset : list kentry) : list Z := keyset_id_impl sha256 keyset.
 
+Theorem derive_keyset_id_eq_spec : forall ks id, NoDup (map fst ks) ->
+  (keyset_id_spec sha256 ks id <-> id = derive_keyset_id ks).
+Proof. exact (keyset_id_impl_eq_spec sha256). Qed.
+
 (* /repo/crypto/keyset_test.go TestDeriveKeysetId, first vector (also in NUT-02), given in a
    non-ascending order *)
 Example keyset_id_vector :
